@@ -90,6 +90,9 @@ impl<S: LexemeSink> StateMachineActions for Lexer<S> {
         // (except for CDATA, but there is a special action to take care of it).
         self.set_last_text_type(TextType::Data);
 
+        let ns_before_feedback = context.tree_builder_simulator.current_ns();
+        let ns_stack_depth_before_feedback = context.tree_builder_simulator.ns_stack_depth();
+
         if let Some(feedback) = feedback {
             self.handle_tree_builder_feedback(context, feedback, &lexeme);
         }
@@ -101,7 +104,20 @@ impl<S: LexemeSink> StateMachineActions for Lexer<S> {
         } = lexeme.token_outline
         {
             self.last_start_tag_name_hash = name_hash;
-            *ns = context.tree_builder_simulator.current_ns();
+
+            let ns_after_feedback = context.tree_builder_simulator.current_ns();
+
+            // NOTE: an integration point element (e.g. `<foreignObject>`, `<mi>`) switches
+            // its *content* to the HTML namespace, but the element itself still belongs
+            // to the foreign namespace it has been encountered in.
+            let entered_integration_point = ns_after_feedback == Namespace::Html
+                && context.tree_builder_simulator.ns_stack_depth() > ns_stack_depth_before_feedback;
+
+            *ns = if entered_integration_point {
+                ns_before_feedback
+            } else {
+                ns_after_feedback
+            };
         }
 
         match self.emit_tag_lexeme(context, &lexeme)? {
